@@ -260,6 +260,13 @@ def cases(tier, seed):
             for a in ([arm] if tier == "quick" else arms):
                 yield {"kind": "text", "text": a.replace("%s", st), "opts": [{}, {"initialize_vars": True}][m % 2]}
     yield {"kind": "text", "text": "10 INPUT A,B$:LINE INPUT C$:READ A,B$\n20 DATA 1,,X", "opts": {}}
+    # a string constant without its closing quote at the end of a line, in every place a string can end a line (most are
+    # refused today; what is accepted - now or after a change - must call with a string where a string is declared)
+    for t in ('PRINT "HELLO', '?"HI', 'PRINT@5,"X', 'PRINT A;"X', 'PRINT "A";"B', 'HPRINT(1,2),"HI', 'PLAY "CDE', 'HDRAW "BM10,10;R5', 'B$=A$+"X',
+              'A$="HELLO', 'A$(1)="X', 'A=VAL("12', 'A=INSTR(1,A$,"X', 'B$=STRING$(3,"*', 'A=LEN("ABC', 'IF A=1 THEN PRINT "YES', 'INPUT "WHO', 'LINE INPUT "WHO'):
+        for o in ({}, {"initialize_vars": True}):
+            yield {"kind": "text", "text": "10 " + t, "opts": o}
+            yield {"kind": "text", "text": "10 A=1:" + t + "\n20 END", "opts": o}
     for i in range(1500 if tier == "quick" else 150000):
         yield {"kind": "peg", "seed": seed * 500009 + i, "opts": [{}, {"initialize_vars": True}][i % 2]}
     m = 300 if tier == "quick" else 40000
